@@ -1,5 +1,6 @@
 import AvroModel.Lemmas.WriteOk
 import AvroModel.Props.C09
+import AvroModel.Lemmas.DecodeOk
 /-!
 # C02 — Files written are valid Avro that an independent reader decodes identically
 
@@ -19,6 +20,26 @@ theorem record_valid (c : Codec) (s : ASchema) (hcf : CodecFor c s) (n m : Nat) 
     (hw : write env n c g = some bs) (ht : toAvro env (omits env) m c g = some v)
     (he : encode (canonPlan v) s v = some bs') : bs' = bs :=
   (writeOkAt env n).write m c s g bs v bs' hcf hw ht he
+
+/-- **An independent reader recovers the same data, with no bytes left over.** The reference decoder
+(written from the specification, sharing nothing with the codec model) applied to what `write`
+produced — followed by anything — returns exactly the datum the value denotes and the exact
+remainder. (Composition of write correctness with `decode_encode`.) -/
+theorem independent_reader_recovers (c : Codec) (s : ASchema) (hcf : CodecFor c s) (n n' m : Nat) (g : GoVal)
+    (bs bs' rest : Bytes) (v : Value)
+    (hw : write env n c g = some bs) (ht : toAvro env (omits env) m c g = some v)
+    (he : encode (canonPlan v) s v = some bs') :
+    decode n' s (bs ++ rest) = .ok (v, rest) ∨ decode n' s (bs ++ rest) = .fuel := by
+  have := record_valid env c s hcf n m g bs bs' v hw ht he
+  subst this
+  exact decode_encode n' s (canonPlan v) v bs' rest he
+
+/-- the specification's encodings are self-delimiting: every legal encoding of a datum, under any
+plan, is decoded back to that datum by the reference decoder -/
+theorem reference_decoder_inverts (n : Nat) (s : ASchema) (p : Plan) (v : Value) (bs rest : Bytes)
+    (he : encode p s v = some bs) :
+    decode n s (bs ++ rest) = .ok (v, rest) ∨ decode n s (bs ++ rest) = .fuel :=
+  decode_encode n s p v bs rest he
 
 /-- the branch of a nullable union is null exactly when the codec's `Omit` holds -/
 theorem null_branch_iff (n : Nat) (c : Codec) (nn : Nat) (g : GoVal) (bs : Bytes)
